@@ -272,6 +272,13 @@ def do_op(ctx, op):
         # the FIRST value the application got counts (reads must be repeatable); own commits update it (after_commit)
         if (op['o'], op['a']) not in ctx.written: ctx.seen.setdefault((op['o'], op['a']), v)
         return 'ok', v
+    if k == 'find':                     # E.get(id=o, a=v): by the identity map (then `a` is read from the object) or by SQL
+        o = op['o']; name = NAMES[op['a']]
+        obj = E.get(id=o, **{name: dec(KIND[name], op['v'])})
+        if obj is None: return 'ok', 0
+        ctx.objs[o] = obj
+        if (o, op['a']) not in ctx.written: ctx.seen.setdefault((o, op['a']), op['v'])
+        return 'ok', 1
     if k == 'write':
         obj = ctx.objs.get(op['o'])
         if obj is None: return 'notLoaded', None
@@ -431,7 +438,13 @@ def gen_case(rng, uid):
                 r = rng.random()
                 o = rng.choice(objs)
                 if o not in loaded and r < 0.9:
-                    prog.append({'k': 'get', 'o': o, 'fu': rng.random() < 0.1}); loaded.add(o); continue
+                    if rng.random() < 0.15:
+                        a = rng.choice(hot)
+                        prog.append({'k': 'find', 'o': o, 'a': a, 'v': rng.choice([rows[o][a], rows[o][a], 0, 1])})
+                        if prog[-1]['v'] == rows[o][a]: loaded.add(o)
+                    else:
+                        prog.append({'k': 'get', 'o': o, 'fu': rng.random() < 0.1}); loaded.add(o)
+                    continue
                 a = rng.choice(hot)
                 if r < 0.35: prog.append({'k': 'read', 'o': o, 'a': a})
                 elif r < 0.65:
@@ -442,7 +455,8 @@ def gen_case(rng, uid):
                 elif r < 0.80: prog.append({'k': 'commit'})
                 elif r < 0.88: prog.append({'k': 'fetch', 'o': o, 'as': sorted(rng.sample(range(len(ATTRS)), rng.choice([1, 2, len(ATTRS)])))})
                 elif r < 0.93: prog.append({'k': 'get', 'o': o, 'fu': rng.random() < 0.5})
-                elif r < 0.96: prog.append({'k': 'rollback'}); loaded = set()
+                elif r < 0.95: prog.append({'k': 'rollback'}); loaded = set()
+                elif r < 0.98: prog.append({'k': 'find', 'o': o, 'a': a, 'v': rng.choice([rows[o][a], 0, 1, 2])})
                 else: prog.append({'k': 'read', 'o': o, 'a': rng.randrange(len(ATTRS))})
             prog.append({'k': 'close'})
         progs.append(prog)
@@ -472,6 +486,8 @@ def template_cases(rng, limit):
         b = (a + 1) % len(ATTRS)
         pairs.append(([G, rd(a), wr(b, 51), C], [G, wr(a, 61), C]))                    # read a, write b  ||  write a
     pairs.append(([G, wr(0, 52), C], [G, wr(0, 62), C]))                               # blind writes
+    for a in (0, 1, 6, 7):
+        pairs.append(([{'k': 'find', 'o': 1, 'a': a, 'v': 1}, wr((a + 1) % len(ATTRS), 59), C], [G, wr(a, 69), C]))   # attribute read by a search criterion
     pairs.append(([GU, rd(0), wr(0, 53), C], [G, rd(0), wr(0, 63), C]))                # locked for update
     pairs.append(([G, rd(0), K, wr(0, 54), C], [G, rd(0), wr(0, 64), C]))              # second transaction of a session
     pairs.append(([GU, rd(0), K, wr(1, 57), C], [G, wr(0, 67), C]))                    # the for_update exemption ends at commit
@@ -504,7 +520,7 @@ def followups(case):
                     for o in loaded:
                         if not any(q['k'] == 'write' and q['o'] == o and q['a'] == b for q in new): new.append({'k': 'write', 'o': o, 'a': b, 'v': 77})
                     loaded = []
-                elif op['k'] in ('get', 'fetch') and op['o'] not in loaded: loaded.append(op['o'])
+                elif op['k'] in ('get', 'fetch', 'find') and op['o'] not in loaded: loaded.append(op['o'])
                 elif op['k'] == 'rollback': loaded = []
                 new.append(op)
             progs.append(new)
